@@ -17,7 +17,7 @@ def binOk (r : Nat) (op : BinOp) (a b : Val) : Bool :=
   match op with
   | .truediv | .floordiv | .mod | .divmod => !b.divisorZero r
   | .pow | .lshift => !b.negInt
-  | .rshift => !b.isLcG
+  | .rshift => !b.isLcG && !b.negInt
   | .band | .bxor | .bor => bwOk a b
   | .lt | .le | .eq | .ne | .gt | .ge => cmpOk a b
   | _ => true
@@ -34,7 +34,9 @@ theorem binopV_inert {op : BinOp} {a b : Val} (ha : BoolV a) (hb : BoolV b) (hok
   case divmod => exact divmodV_inert _ _ hok
   case pow => exact powV_inert _ hok
   case lshift => exact lshiftV_inert _ hok
-  case rshift => exact rshiftV_inert _ hok
+  case rshift =>
+    simp only [Bool.and_eq_true, Bool.not_eq_true'] at hok
+    exact rshiftV_inert _ hok.1 hok.2
   case band => exact bwV_inert _ ha hb hok
   case bxor => exact bwV_inert _ ha hb hok
   case bor => exact bwV_inert _ ha hb hok
@@ -262,7 +264,7 @@ theorem step_inert_plain {regs : List Val} {frames : List GuardBak} {i : Instr} 
     refine Inert.bind (getReg_inert regs t) (fun tv ht => ?_)
     refine Inert.bind (getReg_inert regs f) (fun fv hf => ?_)
     simp only [stepOk, hc.2] at hok
-    exact Inert.bind (ifThenElse_inert _ hok (hregs tv ht.1) (hregs fv hf.1)) (fun r hr => Inert.pure ⟨hr, hregs, rfl⟩)
+    exact Inert.bind (ifThenElse_inert _ hok (hregs cv hc.1) (hregs tv ht.1) (hregs fv hf.1)) (fun r hr => Inert.pure ⟨hr, hregs, rfl⟩)
   case list xs =>
     simp only [step]
     refine Inert.bind (getRegs_inert regs xs) (fun vs hvs => ?_)
